@@ -1,9 +1,10 @@
 /-
-C02 on the payload layer — descriptors: the one thing the descriptor reader can return that the writer does not
-reproduce is a KEY CUT SHORT by the end of the stream. `read_length_and_key` reads the key with a lenient
-`fp.read(length or 4)`; a key whose length field is 0 (a known term or an implicit key) and of which fewer than 4 bytes
-are left, or an explicit key of which no byte is left, comes back shorter than what the writer's layout needs.
-`KeyFull` says that a key was read in full, `KeysFull` that every key of a value was.
+C02 on the payload layer — descriptors. The one thing the descriptor reader could return that the writer does not reproduce
+was a KEY CUT SHORT by the end of the stream: `read_length_and_key` read the key with a lenient `fp.read(length or 4)`; a key
+whose length field is 0 (a known term or an implicit key) and of which fewer than 4 bytes were left, or an explicit key of
+which no byte was left, came back shorter than what the writer's layout needs (finding
+C02/payload/DescriptorBlock/reread-differs/descriptor-key-cut-short, repaired by repo commit 3c59c32: `IOError`).
+`KeyFull` says that a key has the bytes its length field announced: every key the reader returns now is.
 
 Core Lean only.
 -/
@@ -15,71 +16,6 @@ open PsdVerif PsdVerif.Codec
 /-- the key has the bytes its length field announced: 4 for a length field of 0, at least one otherwise -/
 def KeyFull (k : Key) : Prop := if k.implicit then k.bytes.length = 4 else k.bytes.length ≠ 0
 instance (k : Key) : Decidable (KeyFull k) := by unfold KeyFull; exact inferInstance
-
-mutual
-def KeysFull : DVal → Prop
-  | .enumerated ty en => KeyFull ty ∧ KeyFull en
-  | .enumRef _ cid ty en => KeyFull cid ∧ KeyFull ty ∧ KeyFull en
-  | .klass _ _ cid => KeyFull cid
-  | .property _ cid kid => KeyFull cid ∧ KeyFull kid
-  | .name _ cid _ => KeyFull cid
-  | .offset _ cid _ => KeyFull cid
-  | .list _ items => KeysFullList items
-  | .desc _ _ cid items => KeyFull cid ∧ KeysFullItems items
-  | .objArray _ _ cid items => KeyFull cid ∧ KeysFullItems items
-  | .int _ _ => True
-  | .large _ => True
-  | .bool _ => True
-  | .double _ => True
-  | .unitFloat _ _ => True
-  | .unitFloats _ _ => True
-  | .string _ => True
-  | .raw _ _ => True
-def KeysFullList : List DVal → Prop
-  | [] => True
-  | v :: vs => KeysFull v ∧ KeysFullList vs
-def KeysFullItems : Items → Prop
-  | [] => True
-  | (k, v) :: r => KeyFull k ∧ KeysFull v ∧ KeysFullItems r
-end
-
-mutual
-def KeysFull.dec : (v : DVal) → Decidable (KeysFull v)
-  | .enumerated _ _ => by unfold KeysFull; exact inferInstance
-  | .enumRef _ _ _ _ => by unfold KeysFull; exact inferInstance
-  | .klass _ _ _ => by unfold KeysFull; exact inferInstance
-  | .property _ _ _ => by unfold KeysFull; exact inferInstance
-  | .name _ _ _ => by unfold KeysFull; exact inferInstance
-  | .offset _ _ _ => by unfold KeysFull; exact inferInstance
-  | .list _ items => by unfold KeysFull; exact KeysFullList.dec items
-  | .desc _ _ _ items => by unfold KeysFull; exact @instDecidableAnd _ _ inferInstance (KeysFullItems.dec items)
-  | .objArray _ _ _ items => by unfold KeysFull; exact @instDecidableAnd _ _ inferInstance (KeysFullItems.dec items)
-  | .int _ _ => by unfold KeysFull; exact inferInstance
-  | .large _ => by unfold KeysFull; exact inferInstance
-  | .bool _ => by unfold KeysFull; exact inferInstance
-  | .double _ => by unfold KeysFull; exact inferInstance
-  | .unitFloat _ _ => by unfold KeysFull; exact inferInstance
-  | .unitFloats _ _ => by unfold KeysFull; exact inferInstance
-  | .string _ => by unfold KeysFull; exact inferInstance
-  | .raw _ _ => by unfold KeysFull; exact inferInstance
-def KeysFullList.dec : (vs : List DVal) → Decidable (KeysFullList vs)
-  | [] => by unfold KeysFullList; exact inferInstance
-  | v :: vs => by unfold KeysFullList; exact @instDecidableAnd _ _ (KeysFull.dec v) (KeysFullList.dec vs)
-def KeysFullItems.dec : (r : Items) → Decidable (KeysFullItems r)
-  | [] => by unfold KeysFullItems; exact inferInstance
-  | (_, v) :: r => by
-    unfold KeysFullItems
-    exact @instDecidableAnd _ _ inferInstance (@instDecidableAnd _ _ (KeysFull.dec v) (KeysFullItems.dec r))
-end
-
-instance : Decidable (KeysFull v) := KeysFull.dec v
-instance : Decidable (KeysFullItems r) := KeysFullItems.dec r
-
-def Block.KeysFull (b : Block) : Prop := KeyFull b.classID ∧ KeysFullItems b.items
-instance (b : Block) : Decidable b.KeysFull := by unfold Block.KeysFull; exact inferInstance
-
-def Block2.KeysFull (b : Block2) : Prop := KeyFull b.classID ∧ KeysFullItems b.items
-instance (b : Block2) : Decidable b.KeysFull := by unfold Block2.KeysFull; exact inferInstance
 
 /-- every known term has 4 bytes (`_TERMS` is built from the 4-byte terminology values): the writer stores a term with the
 length field 0, the reader takes 4 bytes for it -/
